@@ -70,6 +70,44 @@ class BackendPlan(object):
 ALL_COMPILED = ('cython_add', 'cython_profiles', 'cython_distances', 'cython_directionality')
 
 
+class _Loader(object):
+    def __init__(self, world, short):
+        self.world, self.short = world, short
+
+    def create_module(self, spec):
+        return self.world.compiled[self.short]
+
+    def exec_module(self, module):
+        return None
+
+
+class _Finder(object):
+    """meta-path finder: answers for the six extension modules when an import reaches the import
+    machinery without passing builtins.__import__ as patched (importlib.import_module bound at
+    import time, importlib.util.find_spec, __import__ captured earlier, pkgutil ...)"""
+
+    def __init__(self, world):
+        self.world = world
+        self.served = False
+
+    def find_spec(self, name, path=None, target=None):
+        short = CY_ABS.get(name)
+        w = self.world
+        if short is None or not w.installed:
+            return None
+        ok = w.plan.decide(short)
+        if w.events is not None:
+            w.events.append(('import', short, 'import machinery', 1 if ok else 0))
+        if not ok:
+            return None          # the real finders follow and do not find an unbuilt extension
+        import importlib.machinery
+        self.served = True
+        return importlib.machinery.ModuleSpec(name, _Loader(w, short), origin=w.compiled[short].__file__)
+
+    def invalidate_caches(self):
+        return None
+
+
 class _PkgProxy(object):
     """stands for the package `pyspike.cython` in `from pyspike.cython import cython_x`"""
 
@@ -118,6 +156,7 @@ class World(object):
         self.events = None        # list to append seam events to, or None
         self.shadow = None        # object with wrap(modshort, module) or None
         self._injected = []
+        self._finder = None
         self.installed = False
 
     # ------------------------------------------------------------------
@@ -166,7 +205,7 @@ class World(object):
         except Exception:
             return None
 
-    def snapshot_state(self):
+    def snapshot_state(self, assign=True):
         base = []
         for m in self._state_modules():
             names = dict(m.__dict__)
@@ -188,11 +227,13 @@ class World(object):
                             cattrs[ck] = self._copy_container(cv)
                     classes[k] = (set(v.__dict__), cattrs)
             base.append((m, names, cont, funcs, classes))
-        self._baseline = base
+        if assign:
+            self._baseline = base
+        return base
 
-    def reset_state(self):
+    def reset_state(self, base=None):
         import copy
-        for m, names, cont, funcs, classes in self._baseline:
+        for m, names, cont, funcs, classes in (self._baseline if base is None else base):
             d = m.__dict__
             for k in list(d):
                 if k not in names:
@@ -271,6 +312,9 @@ class World(object):
             absname = pkg + '.' + name if name else pkg
         else:
             absname = name
+        if self._finder is not None and self._finder.served:
+            self._finder.served = False
+            self._purge_cached()
         short = CY_ABS.get(absname)
         if short is not None:
             mod = self._decide_module(short, absname, sys._getframe(1).f_code.co_name)
@@ -308,51 +352,35 @@ class World(object):
             mod = self.shadow.wrap(short, mod)
         return mod
 
-    def _import_module(self, name, package=None):
-        absname = name
-        if name.startswith('.') and package:
-            level = len(name) - len(name.lstrip('.'))
-            base = package.rsplit('.', level - 1)[0] if level > 1 else package
-            absname = base + '.' + name.lstrip('.') if name.lstrip('.') else base
-        short = CY_ABS.get(absname)
-        if short is not None:
-            return self._decide_module(short, absname, 'importlib.import_module')
-        return self._real_import_module(name, package)
-
-    def _find_spec(self, name, package=None):
-        absname = name
-        if name.startswith('.') and package:
-            absname = package + name
-        short = CY_ABS.get(absname)
-        if short is not None:
-            ok = self.plan.decide(short)
-            if self.events is not None:
-                self.events.append(('find_spec', short, 'importlib.util.find_spec', 1 if ok else 0))
-            if not ok:
-                return None
-            import importlib.machinery
-            return importlib.machinery.ModuleSpec(absname, None, origin=self.compiled[short].__file__)
-        return self._real_find_spec(name, package)
+    def _purge_cached(self):
+        """imports that reached the machinery through the meta-path finder were cached by the
+        interpreter; forget them so that the plan is consulted again"""
+        for absname, short in CY_ABS.items():
+            if absname in sys.modules:
+                del sys.modules[absname]
+                pkg = sys.modules.get('pyspike.cython')
+                if pkg is not None and short in pkg.__dict__ and (pkg, short) not in self._injected:
+                    try:
+                        delattr(pkg, short)
+                    except AttributeError:
+                        pass
 
     def install(self):
         if not self.installed:
-            import importlib
-            import importlib.util
-            self._real_import_module = importlib.import_module
-            self._real_find_spec = importlib.util.find_spec
             builtins.__import__ = self._import
-            importlib.import_module = self._import_module
-            importlib.util.find_spec = self._find_spec
+            if self._finder is None:
+                self._finder = _Finder(self)
+            if self._finder not in sys.meta_path:
+                sys.meta_path.insert(0, self._finder)
             self._injected = []
             self.installed = True
 
     def uninstall(self):
         if self.installed:
-            import importlib
-            import importlib.util
             builtins.__import__ = self._real_import
-            importlib.import_module = self._real_import_module
-            importlib.util.find_spec = self._real_find_spec
+            if self._finder in sys.meta_path:
+                sys.meta_path.remove(self._finder)
+            self._purge_cached()
             for pkg, name in self._injected:
                 try:
                     delattr(pkg, name)
